@@ -36,6 +36,10 @@ class SSub(Sym):
     def sym_isinstance(self, ex, cls):
         return cls in (dict, object)
 
+    def sym_yield_from(self, interp):
+        # iterating a mapping yields its raw keys ('doc.a', 'sp.b.$lt', ...), which are not root keys
+        return [("raw-keys-of", self.e)]
+
 
 class SGenOf(Sym):
     """result of the recursive call on a sub-filter (a generator): only dict(...) / iteration by contract"""
@@ -270,6 +274,14 @@ class RootsOf(Sym):
         ex.assume(n >= 0)
         self.g["cur_roots"] = self.sub
         return CutSeq(n, lambda interp, i: RootElem(self.sub))
+
+
+def _roots_yield_from(self, interp):
+    self.g["covered"].append(self.sub)
+    return [self]
+
+
+RootsOf.sym_yield_from = _roots_yield_from
 
 
 class RootElem(Sym):
